@@ -1,11 +1,14 @@
 import OpcuaModel.Base.Loop
 import OpcuaModel.Model.Subs
+import OpcuaModel.Model.Republish
 /-
   Driver for C26.
     acks <pending> <results>                         → <pending'>
     notif <known> <last> <next> <pending> <sub> <seq> <ndata>  → <last'> <next'> <pending'>
     rounds <subs> <pending> <event>…                 → <acks of request 1>/<acks of request 2>/…/<final pending> ; <subs'>
     reconnect <registry> <errkind> <step>…           → <action> <connected> <activeSubs> <loop> <registry'> | invalid
+    republish <avail> <queue> <nextSeq>              → delivered=<seqs> requested=<seqs> next=<n> outcome=<…> ok=<0|1>
+                                                       (server answering from its retransmission queue)
   lists are comma separated, `-` is the empty list; an ack is `sub:seq`, results are
   letters o (Good) i (BadSubscriptionIDInvalid) u (BadSequenceNumberUnknown) x (other);
   a subscription is `id:last:next`, a registry entry `id:items`;
@@ -128,6 +131,16 @@ def handle : List String → String
         let m := finish m
         s!"{m.action.code} {if m.connected then 1 else 0} {m.activeSubs} {showLoop m.loop} {showReg m.subs}"
       | none => "invalid"
+    | _, _, _ => "bad-op"
+  | ["republish", avail, queue, next] =>
+    match parseNats avail, parseNats queue, next.toNat? with
+    | some av, some q, some n =>
+      let r := Opcua.Rep.republish av (Opcua.Rep.honest q) (q.length + 5) n
+      let sh := fun (l : List Nat) => if l.isEmpty then "-" else ",".intercalate (l.map toString)
+      let oc := match r.outcome with
+        | .done => "done" | .failSession => "failSession" | .failSub => "failSub"
+        | .failOther => "failOther" | .running => "running"
+      s!"delivered={sh r.delivered} requested={sh r.requested} next={r.nextSeq} outcome={oc} ok={if Opcua.Rep.republishOk r.outcome then 1 else 0}"
     | _, _, _ => "bad-op"
   | _ => "bad-op"
 
